@@ -258,3 +258,14 @@ def check_C11(lines, obs):
 
 def check_C12(lines, obs):
     return check_case(lines, obs, want=("C12",))
+
+
+def check_C15(lines, obs):
+    """from_df / set_values_from_df leave the frame handed in as it was"""
+    prev = None
+    for ln, ob in zip(lines, obs):
+        if ln == "note input_unchanged" and ob != "ok":
+            return fail(prev or ln, "importing from a DataFrame does not alter the DataFrame handed in", "frame unchanged", ob)
+        if ln.startswith(("fromdf", "setdf")):
+            prev = ln
+    return None
